@@ -1,0 +1,17 @@
+//go:build verif
+
+// C13: contracts for the deductive verifier in /verif (govc). Only compiled with -tags verif.
+
+package sequence
+
+// the side infos of the kept revisions, position by position
+//@ func (SnapSequence).SideInfos
+//@   props C13
+//@   ensures [same-length] len(result) == len(snapSeq.Revisions)
+//@   ensures [position-wise] forall k int :: {result[k]} 0 <= k && k < len(result) ==> result[k] == snapSeq.Revisions[k].Snap
+//@   loop 0: invariant -1 <= idx0 && idx0 < len(snapSeq.Revisions) && len(sis) == len(snapSeq.Revisions)
+//@   loop 0: invariant forall k int :: {sis[k]} 0 <= k && k <= idx0 ==> sis[k] == snapSeq.Revisions[k].Snap
+
+//@ func NewRevisionSideState
+//@   props C13
+//@   ensures result != nil && result.Snap == snapSideInfo && result.Components == compSideInfo
